@@ -620,6 +620,7 @@ func cmdSupervise(args []string) int {
 	nviol := 0
 	seenInv := map[string]bool{}
 	knownPrinted := map[string]bool{}
+	var unconfirmed []string
 	for _, lr := range lrs {
 		sort.SliceStable(lr.violations, func(i, j int) bool { return lr.violations[i].Seed < lr.violations[j].Seed })
 		for _, v := range lr.violations {
@@ -662,7 +663,11 @@ func cmdSupervise(args []string) int {
 			}
 			v.Death = died
 			if !reproduced {
-				return fatal2("violation %s (seed %d) did not reproduce in a fresh process: got %v died=%v", v.Fail, v.Seed, o.Fail, died)
+				// Not a verdict by itself (no replay, no VIOLATION line). If another
+				// violation of this batch IS confirmed the check still exits 1 with
+				// that one; if none is, this is harness trouble (exit 2), see below.
+				unconfirmed = append(unconfirmed, fmt.Sprintf("violation %s (seed %d) did not reproduce in a fresh process: got %v died=%v", v.Fail, v.Seed, o.Fail, died))
+				continue
 			}
 			isKnown := false
 			for _, k := range kfs {
@@ -697,6 +702,12 @@ func cmdSupervise(args []string) int {
 		}
 	}
 
+	for _, u := range unconfirmed {
+		fmt.Printf("UNREPRODUCED-REPORT: %s\n", u)
+	}
+	if len(unconfirmed) > 0 && exit == 0 {
+		return fatal2("%d violation(s) reported by workers did not reproduce in a fresh process and no other violation was confirmed", len(unconfirmed))
+	}
 	// ---- race reports of workers that no fresh process reproduced
 	for _, lr := range lrs {
 		for _, u := range lr.unreproduced {
